@@ -154,7 +154,7 @@ def interfering(h):
 
 
 OPERATOR_HARNESSES = ["cover-AND", "cover-ElseIf", "cover-Union", "cover-Not", "cover-Comparator[generic]", "cover-Comparator[eq]",
-                      "value-Variable[operand]", "value-Variable[condition]", "value-Attribute[operand]", "value-Attribute[condition]",
+                      "value-Variable[operand]", "value-Variable[condition<AND]", "value-Variable[condition<Not]", "value-Attribute[operand]", "value-Attribute[condition<Not]", "value-Attribute[condition<AND]",
                       "query-descriptor[1]", "query-descriptor[2]", "query-descriptor[no-condition]"]
 
 
